@@ -80,7 +80,41 @@ func genRelated(r *hx.RNG, v oracle.Val) (oracle.Val, string) {
 	if v.Form != oracle.Finite {
 		return genCmpVal(r), "unrelated"
 	}
-	switch r.Intn(8) {
+	switch r.Intn(10) {
+	case 8: // the same words plus extra low words taken from the edge set (pairs of them sum to 2^64 - 1 or 2^64)
+		pad := (19 - oracle.Digits(v.Coef)%19) % 19
+		k := r.Range(1, 4)
+		c := new(big.Int).Mul(v.Coef, oracle.Pow10(pad))
+		words := []uint64{1 << 63, 1 << 63, 1<<63 - 1, 1 << 62, 1<<64 - wb, 1<<64 - wb - 1, wb - 1, 1, 0}
+		w0 := words[r.Intn(len(words))]
+		for i := 0; i < k; i++ {
+			w := words[r.Intn(len(words))]
+			if r.Chance(40) {
+				w = w0 // the same word repeated: 2 x 2^63, 4 x 2^62 wrap to 0 in 64 bits
+			}
+			c.Mul(c, oracle.Pow10(19))
+			c.Add(c, new(big.Int).SetUint64(w))
+		}
+		return inRange(oracle.Val{Form: oracle.Finite, Neg: v.Neg, Coef: c, Exp: v.Exp - pad - 19*int64(k)}), "extra-low-edge-words"
+	case 9: // same length, two words differ by +d and -d (the differences cancel in a sum)
+		pad := (19 - oracle.Digits(v.Coef)%19) % 19
+		c := new(big.Int).Mul(v.Coef, oracle.Pow10(pad))
+		nw := int(oracle.Digits(c) / 19)
+		if nw < 2 {
+			c.Mul(c, oracle.Pow10(19*int64(3-nw)))
+			pad += 19 * int64(3-nw)
+			nw = 3
+		}
+		base := new(big.Int).Set(c)
+		i := r.Intn(nw - 1)
+		j := i + 1 + r.Intn(nw-1-i)
+		d := big.NewInt(int64(r.Range(1, 9)))
+		c.Add(c, new(big.Int).Mul(d, oracle.Pow10(19*int64(j))))
+		c.Sub(c, new(big.Int).Mul(d, oracle.Pow10(19*int64(i))))
+		if c.Sign() <= 0 || oracle.Digits(c) != oracle.Digits(base) {
+			return v, "equal"
+		}
+		return inRange(oracle.Val{Form: oracle.Finite, Neg: v.Neg, Coef: c, Exp: v.Exp - pad}), "word-differences-cancel"
 	case 0:
 		return v, "equal"
 	case 1:
